@@ -17,9 +17,11 @@ REPO_PY = os.path.join(REPO, "asl-workflow-engine", "py")
 
 LATENCY_PROFILES = {
     "zero": {},
-    "small": {"pub": ("uniform_ms", 0, 20), "reply": ("uniform_ms", 0, 50)},
-    "heavy": {"pub": ("heavy_ms", 0, 30, 0.03, 4000), "reply": ("heavy_ms", 0, 80, 0.05, 6000)},
-    "ties": {"pub": ("choice", [0.0, 0.0, 0.001]), "reply": ("choice", [0.0, 0.5, 1.0])},
+    "small": {"pub": ("uniform_ms", 0, 20), "reply": ("uniform_ms", 0, 50), "inval": ("uniform_ms", 0, 30)},
+    "heavy": {"pub": ("heavy_ms", 0, 30, 0.03, 4000), "reply": ("heavy_ms", 0, 80, 0.05, 6000),
+              "inval": ("heavy_ms", 0, 50, 0.05, 3000)},
+    "ties": {"pub": ("choice", [0.0, 0.0, 0.001]), "reply": ("choice", [0.0, 0.5, 1.0]),
+             "inval": ("choice", [0.0, 0.0, 0.5])},
 }
 
 
@@ -30,6 +32,7 @@ class World(object):
                  max_steps=200000, trace=False, worker_hook=None, message_ttl=0, region="local",
                  initial_store=None):
         patches.install(REPO_PY)
+        patches.gc_point()
         lat = LATENCY_PROFILES[latency] if isinstance(latency, str) else latency
         self.sim = sim = Sim(seed, policy=policy, latency=lat, max_steps=max_steps)
         sim.trace_on = trace
